@@ -161,6 +161,8 @@ def lfr(ctx):
     allowed_idx = set()
     for e in mu:
         idx = [p[1] for p in e.path if p[0] == "item"]
+        if len(idx) == 1 and (idx[0].single_atom() or ("",))[0] == "tuple":
+            idx = list(idx[0].single_atom()[1])   # confusion[y_p, y_t]: the cell named by one index pair
         ok = len(idx) == 2 and all(T.akey(i) in coerced for i in idx) and {T.akey(i) for i in idx} == {T.akey(ext["y_true"]), T.akey(ext["y_pred"])}
         ctx.ob("TNT-label", site, "labels index the confusion matrix as coerced 0/1 integers (1 * y)", ok,
                "a boolean label used directly as an index selects by mask instead of by position: coerce with 1 * y / int(y)", e)
@@ -180,7 +182,7 @@ def lfr(ctx):
                 if a in agree:
                     return sym
                 # the confusion matrix after the increment, and everything read from it
-                if a[0] in ("mutated",) and a[1] == A("_confusion"):
+                if a[0] in ("mutated", "setitem") and a[1] == A("_confusion"):
                     return atom(("sym", "confusion"))
                 return None
             t2 = T.subst(t, f)
